@@ -67,6 +67,24 @@ class Term:
         return self.tokens()
 
 
+def parse_term(tok, idx=0):
+    w = tok.split()
+    coef, p, a, kind = Fraction(w[0]), int(w[1]), Fraction(w[2]), w[3]
+    if kind in ('imp', 'step'):
+        return Term(coef, p, a, kind, d=int(w[4]), idx=idx)
+    if kind == 'one':
+        return Term(coef, p, a, 'one', idx=idx)
+    return Term(coef, p, a, kind, bpair=(Fraction(w[4]), Fraction(w[5])), cpair=(Fraction(w[6]), Fraction(w[7])), idx=idx)
+
+
+def parse_sig(toks):
+    return [parse_term(t.strip(), i) for i, t in enumerate(toks.split(';')) if t.strip()]
+
+
+def flist(s):
+    return [] if s.strip() == '-' else [Fraction(v) for v in s.split(',')]
+
+
 def sig_tokens(terms):
     return ' ; '.join(t.tokens() for t in terms)
 
@@ -126,13 +144,26 @@ class L:
         return e.subs(m)
 
     def tofrac(self, x):
+        """exact rational value of a SymPy number expression; never approximates (no nsimplify):
+        simplification first, then a degree-1 minimal polynomial as the certificate"""
         S = self.S
         x = S.sympify(x)
-        if not x.is_Rational:
-            x = S.nsimplify(S.simplify(x)) if x.is_number else S.cancel(x)
         if x.is_Rational:
             return Fraction(int(x.p), int(x.q))
-        raise ValueError('not rational: %s' % x)
+        for f in (S.cancel, S.simplify, lambda e: S.simplify(S.expand(e, complex=True))):
+            try:
+                y = f(x)
+            except Exception:   # noqa
+                continue
+            if y.is_Rational:
+                return Fraction(int(y.p), int(y.q))
+        if x.is_number and x.count_ops() < 120:
+            mp = S.minimal_polynomial(x, polys=True)
+            if mp.degree() == 1:
+                c1, c0 = mp.all_coeffs()
+                y = -c0 / c1
+                return Fraction(int(y.p), int(y.q))
+        raise ValueError('not (provably) rational: %s' % str(x)[:80])
 
     def ratfun_w(self, e):
         """canonicalise a rational function of z (exact coefficients) to (adv, num(w), den(w)), w = 1/z,
@@ -155,6 +186,119 @@ class L:
         if dn >= dd:
             return dn - dd, num, den
         return 0, [Fraction(0)] * (dd - dn) + num, den
+
+
+# --------------------------------------------------------------------------- exact evaluation in F_P
+
+FP = 2305843010009098561          # = 2882880 * 799840093937 + 1, see lean/Lcapy/Model/Fp.lean
+FG = 41                           # a primitive root mod FP
+
+
+class Unsupported(Exception):
+    pass
+
+
+def zeta(M, e):
+    """zeta_M ** e  with zeta_M = FG ** ((FP-1)/M): a fixed coherent system of roots of unity"""
+    if (FP - 1) % M:
+        raise Unsupported('no root of unity of order %d in F_P' % M)
+    return pow(FG, ((FP - 1) // M) * (e % M), FP)
+
+
+def fp_of_frac(x):
+    x = Fraction(x)
+    if x.denominator % FP == 0:
+        raise ZeroDivisionError
+    return x.numerator % FP * pow(x.denominator % FP, FP - 2, FP) % FP
+
+
+class FpEval:
+    """image of an exact SymPy number expression under the ring homomorphism
+    Z[zeta_M, 1/d] -> F_P, zeta_M |-> zeta(M, 1).  Symbols are looked up in `env` (integers for k, N, n;
+    F_P elements for others).  A product with an exactly-zero factor is zero (this is how Lcapy's
+    `(1 - UnitImpulse(k - k0)) * (expression singular at k0)` results are meant; counted)."""
+
+    def __init__(self, Lc, env, fpenv=None):
+        self.L, self.S, self.env, self.fpenv = Lc, Lc.S, env, fpenv or {}
+        self.zero_times_singular = 0
+
+    def rat(self, e):
+        S = self.S
+        v = e.subs(self.env)
+        v = S.simplify(v) if not v.is_Rational else v
+        if not v.is_Rational:
+            raise Unsupported('not rational: %s' % v)
+        return Fraction(int(v.p), int(v.q))
+
+    def root(self, r):
+        """exp(i*pi*r)"""
+        return zeta(2 * r.denominator, r.numerator)
+
+    def ev(self, e):
+        S = self.S
+        if e.is_Rational:
+            return fp_of_frac(Fraction(int(e.p), int(e.q)))
+        if e is S.I:
+            return zeta(4, 1)
+        if e.is_Symbol:
+            if e in self.env:
+                return int(self.env[e]) % FP
+            if e in self.fpenv:
+                return self.fpenv[e]
+            raise Unsupported('free symbol %s' % e)
+        if e.is_Add:
+            return sum(self.ev(a) for a in e.args) % FP
+        if e.is_Mul:
+            vals, err = [], None
+            for a in e.args:
+                try:
+                    vals.append(self.ev(a))
+                except (ZeroDivisionError, Unsupported) as ex:
+                    err = ex
+            if any(v == 0 for v in vals):
+                if err is not None:
+                    self.zero_times_singular += 1
+                return 0
+            if err is not None:
+                raise err
+            r = 1
+            for v in vals:
+                r = r * v % FP
+            return r
+        if e.is_Pow:
+            b, x = e.as_base_exp()
+            xv = self.rat(x)
+            if xv.denominator == 1:
+                bv = self.ev(b)
+                n = xv.numerator
+                if n >= 0:
+                    return pow(bv, n, FP)
+                if bv == 0:
+                    raise ZeroDivisionError
+                return pow(pow(bv, FP - 2, FP), -n, FP)
+            if b == -1:
+                return self.root(xv)
+            raise Unsupported('irrational power %s' % e)
+        if e.func == S.exp:
+            return self.root(self.rat(e.args[0] / (S.I * S.pi)))
+        if e.func == S.cos:
+            r = self.rat(e.args[0] / S.pi)
+            return (self.root(r) + self.root(-r)) * fp_of_frac(Fraction(1, 2)) % FP
+        if e.func == S.sin:
+            r = self.rat(e.args[0] / S.pi)
+            return (self.root(r) - self.root(-r)) * pow(2 * zeta(4, 1) % FP, FP - 2, FP) % FP
+        if e.func == self.L.UI:
+            return 1 if self.rat(e.args[0]) == 0 else 0
+        if e.func == self.L.US:
+            return 1 if self.rat(e.args[0]) >= 0 else 0
+        if e.is_Piecewise:
+            for (ex, cond) in e.args:
+                c = cond.subs(self.env)
+                if c == True:   # noqa
+                    return self.ev(ex)
+            self.zero_times_singular += 1
+            return 0
+        raise Unsupported('node %s' % e.func)
 
 
 # --------------------------------------------------------------------------- generators
@@ -234,10 +378,12 @@ def run(chk, replay=None):
         chk.findings += [f for f in json.load(open(pend)).get('findings', []) if f.get('property') == 'C13' and f.get('id') not in have]
     Lc = L()
     S = Lc.S
+    chk.coverage['lcapy_under_test'] = os.path.dirname(Lc.lcapy.__file__)
     rng = chk.rng
     quick = chk.tier == 'quick'
+    gen = replay is None                      # --replay <file>: only the recorded case is re-run
     NS = 12 if quick else 20                     # samples checked per sequence
-    budget = {'zt': 60 if quick else 700, 'izt': 25 if quick else 300, 'resp': 40 if quick else 500}
+    budget = {'zt': 250 if quick else 2000, 'izt': 80 if quick else 800, 'resp': 120 if quick else 1200}
     chk.coverage['rule'] = ('zt: a case = a sum of 1-3 terms coef*n^p*a^n*base (base: impulse/step with integer delay incl. advances, '
                             'constant, cos/sin(b n + c) with Pythagorean cos/sin values) compared at 2 (quick) / 4 (thorough) random rational z and '
                             'coefficient-wise for n <= %d, plus IZT(ZT) samples; izt/filt: a case = (b, a) with a from rational simple/repeated poles; '
@@ -264,6 +410,7 @@ def run(chk, replay=None):
     # ------------------------------------------------------------------ zt stream
     def zt_case(terms, origin):
         newcase()
+        mycase = state['case']
         toks = sig_tokens(terms)
         adv = any(t.advanced for t in terms)
         trig = any(t.trig for t in terms)
@@ -310,6 +457,16 @@ def run(chk, replay=None):
                 disagree('zt', {'terms': toks, 'z': fstr(z0), 'lcapy': fstr(lval), 'model': mval})
         # -- oracle 1: the expansion in 1/z has coefficient x[n]
         r = drv.ask1('zt.spec %d %d %s %s | %s' % (NS, adv_l, lst(num_l), lst(den_l), toks))
+        if r != 'ok' and len(terms) > 1 and origin != 'shrunk':
+            # shrink: a single term that already fails is the better replay
+            before = state['cex']
+            for t in terms:
+                t1 = Term(t.coef, t.p, t.a, t.kind, t.d, t.bpair, t.cpair, 0)
+                zt_case([t1], 'shrunk')
+                if state['cex'] > before:
+                    state['cex_cases'].add(mycase)
+                    return
+            state['case'] = mycase
         if r != 'ok':
             cex({'kind': 'zt', 'advance': adv},
                 {'input': {'terms': toks, 'expr': str(e)}, 'lcapy': str(Xs), 'lcapy_canonical': {'adv': adv_l, 'num_w': lst(num_l), 'den_w': lst(den_l)},
@@ -337,7 +494,7 @@ def run(chk, replay=None):
                      'spec': 'IZT(ZT(x))[n] = x[n] for n >= 0: ' + r, 'origin': origin},
                     'inverse z-transform of the z-transform does not recover the sequence')
 
-    for i in range(budget['zt']):
+    for i in (range(budget['zt']) if gen else []):
         mode = i % 5
         terms = gen_sig(rng, allow_adv=(mode == 4), allow_trig=(mode in (2, 3)), maxterms=(1 if mode in (0, 4) else 3))
         zt_case(terms, 'generated')
@@ -409,7 +566,7 @@ def run(chk, replay=None):
         except Exception as ex:   # noqa
             chk.count('filt.lcapy-error', 'de:' + type(ex).__name__)
 
-    for i in range(budget['izt']):
+    for i in (range(budget['izt']) if gen else []):
         b, a, poles = gen_ba(rng, maxpoles=(2 if quick else 3))
         izt_case(b, a, poles)
 
@@ -465,7 +622,7 @@ def run(chk, replay=None):
                  'spec': 'sum_k a[k] y[n-k] = sum_l b[l] x[n-l] for n >= 0 with y[-1-i] = ic[i]: ' + bad},
                 'DLTIFilter.response does not satisfy its difference equation')
 
-    for i in range(budget['resp']):
+    for i in (range(budget['resp']) if gen else []):
         nb, na = rng.randint(1, 4), rng.randint(1, 4)
         b = [rnd_frac(rng, -4, 4, 3, nonzero=False) for _ in range(nb)]
         a = [rnd_frac(rng, -4, 4, 3)] + [rnd_frac(rng, -4, 4, 3, nonzero=False) for _ in range(na - 1)]
@@ -479,7 +636,7 @@ def run(chk, replay=None):
         resp_case(b, a, ic, xs, rng.randint(3, 7 if quick else 12))
 
     # malformed stream: wrong number of initial conditions must be refused
-    for i in range(4 if quick else 20):
+    for i in (range(4 if quick else 20) if gen else []):
         na = rng.randint(1, 3)
         a = [Fraction(1)] + [rnd_frac(rng) for _ in range(na - 1)]
         ic = [rnd_frac(rng) for _ in range(na - 1 + rng.choice([1, 2]))]
@@ -492,6 +649,276 @@ def run(chk, replay=None):
         except ValueError:
             chk.count('malformed', 'wrong-ic-count:ValueError')
         chk.case(('malformed', lst(a), lst(ic)), False)
+
+    # ------------------------------------------------------------------ initial-condition response stream
+    def ini_case(b, a, ic, xic):
+        newcase()
+        bs, as_, ics, xics = lst(b), lst(a), lst(ic), lst(xic)
+        key = ('ini', bs, as_, ics, xics)
+        longb = len(b) > len(a)
+        chk.count('ini.orders', 'b%d a%d%s' % (len(b), len(a), ' (len b > len a)' if longb else ''))
+        F = Lc.lcapy.DLTIFilter([Lc.rat(c) for c in b], [Lc.rat(c) for c in a])
+        M = 8 if quick else 12
+        try:
+            yi = F.initial_response(ic=[Lc.rat(c) for c in ic], xic=[Lc.rat(c) for c in xic])
+            yv = [Lc.tofrac(yi(i).sympy) for i in range(M)]
+        except Exception as ex:   # noqa
+            chk.count('ini.lcapy-error', type(ex).__name__)
+            chk.case(key, False)
+            return
+        chk.case(key, True)
+        chk.sample({'stream': 'ini', 'b': bs, 'a': as_, 'ic': ics, 'xic': xics, 'lcapy': str(yi)[:160]})
+        mv = drv.ask1('ini.model %d %s %s %s %s' % (M, bs, as_, ics, xics))
+        chk.coverage['correspondence']['compared'] += 1
+        if mv != lst(yv):
+            disagree('initial_response', {'b': bs, 'a': as_, 'ic': ics, 'xic': xics, 'lcapy': lst(yv), 'model': mv})
+        # oracle: y obeys the difference equation with x[n] = 0 (n >= 0), x[-1-i] = xic[i], y[-1-i] = ic[i]
+        xtok = 'lit %d %s' % (-len(xic), lst(list(reversed(xic)))) if xic else 'lit 0 -'
+        r = drv.ask1('resp.spec %s %s %s %s | %s' % (lst(yv), bs, as_, ics, xtok))
+        if r != 'ok':
+            cex({'kind': 'initial_response', 'b_longer_than_a': longb},
+                {'input': {'b': bs, 'a': as_, 'ic': ics, 'xic': xics}, 'lcapy': {'y': str(yi), 'samples': lst(yv)}, 'model': mv,
+                 'spec': 'zero-input response obeys the difference equation with the given past samples: ' + r},
+                'initial_response does not satisfy the difference equation')
+
+    for i in (range(40 if quick else 400) if gen else []):
+        na = rng.randint(2, 4)
+        nb = rng.randint(1, na) if i % 4 else rng.randint(na + 1, na + 2)
+        poles = [rnd_frac(rng, -3, 3, 3) for _ in range(na - 1)]          # rational poles keep the samples exactly evaluable
+        if na > 2 and rng.random() < 0.3:
+            poles[1] = poles[0]
+        a0 = rnd_frac(rng, -3, 3, 2)
+        a = [a0 * c for c in poly_from_roots(poles)]
+        b = [rnd_frac(rng, -4, 4, 3, nonzero=False) for _ in range(nb)]
+        ic = [rnd_frac(rng, -5, 5, 2, nonzero=False) for _ in range(na - 1)]
+        xic = [rnd_frac(rng, -5, 5, 2, nonzero=False) for _ in range(na - 1)]
+        ini_case(b, a, ic, xic)
+
+    # ------------------------------------------------------------------ Sequence.lfilter / convolve stream
+    def seqv(vals, n0):
+        return Lc.lcapy.seq([Lc.rat(v) for v in vals], list(range(n0, n0 + len(vals))))
+
+    def conv_case(xv, x0, hv, h0):
+        newcase()
+        key = ('conv', lst(xv), x0, lst(hv), h0)
+        lead = hv[0] == 0
+        chk.count('conv.shape', 'h leading zero' if lead else ('h trailing zero' if hv[-1] == 0 else 'plain'))
+        try:
+            y = seqv(xv, x0).convolve(seqv(hv, h0))
+            yn = [int(v) for v in y.n]
+            yv = [Lc.tofrac(v.sympy) for v in y.vals]
+        except Exception as ex:   # noqa
+            chk.count('conv.lcapy-error', type(ex).__name__)
+            chk.case(key, False)
+            return
+        chk.case(key, True)
+        mv = drv.ask1('conv.model %s %s' % (lst(xv), lst(hv)))
+        chk.coverage['correspondence']['compared'] += 1
+        if mv != lst(yv):
+            disagree('convolve', {'x': lst(xv), 'h': lst(hv), 'lcapy': lst(yv), 'model': mv})
+        y0 = yn[0] if yn else x0 + h0
+        bad = None
+        if yn != list(range(y0, y0 + len(yn))):
+            bad = 'indices %s' % yn
+        else:
+            r = drv.ask1('conv.spec %d %s %d %s %d %s' % (y0, lst(yv), x0, lst(xv), h0, lst(hv)))
+            if r != 'ok':
+                bad = r
+        if bad:
+            cex({'kind': 'convolve', 'h_leading_zero': lead},
+                {'input': {'x': lst(xv), 'x0': x0, 'h': lst(hv), 'h0': h0}, 'lcapy': {'n': yn, 'y': lst(yv)}, 'model': mv,
+                 'spec': 'y[n] = sum_j h[j] x[n-j] for all n: ' + bad},
+                'Sequence.convolve is not the convolution sum')
+
+    def lfilter_case(b, a, xv):
+        newcase()
+        key = ('lfilter', lst(b), lst(a), lst(xv))
+        recursive = len(a) > 1
+        tailzeros = 0
+        for v in reversed(xv):
+            if v != 0:
+                break
+            tailzeros += 1
+        wrap = len(b) - 1 > tailzeros
+        chk.count('lfilter.shape', ('iir' if recursive else 'fir') + (' wraps' if wrap else ''))
+        try:
+            y = seqv(xv, 0).lfilter([Lc.rat(c) for c in b], [Lc.rat(c) for c in a])
+            yv = [Lc.tofrac(v.sympy) for v in y.vals]
+        except Exception as ex:   # noqa
+            chk.count('lfilter.lcapy-error', type(ex).__name__)
+            chk.case(key, False)
+            return
+        chk.case(key, True)
+        mv = drv.ask1('lf.model %s %s %s' % (lst(b), lst(a), lst(xv)))
+        chk.coverage['correspondence']['compared'] += 1
+        if mv != lst(yv):
+            disagree('lfilter', {'b': lst(b), 'a': lst(a), 'x': lst(xv), 'lcapy': lst(yv), 'model': mv})
+        r = drv.ask1('resp.spec %s %s %s - | lit 0 %s' % (lst(yv), lst(b), lst(a), lst(xv)))
+        if r != 'ok':
+            cex({'kind': 'lfilter', 'recursive': recursive, 'index_wraps': wrap},
+                {'input': {'b': lst(b), 'a': lst(a), 'x': lst(xv)}, 'lcapy': lst(yv), 'model': mv,
+                 'spec': 'sum_k a[k] y[n-k] = sum_l b[l] x[n-l], x and y zero before the first sample: ' + r},
+                'Sequence.lfilter does not implement the transfer function b/a')
+
+    for i in (range(60 if quick else 600) if gen else []):
+        xv = [rnd_frac(rng, -4, 4, 2, nonzero=(j in (0,))) for j in range(rng.randint(1, 5))]
+        hv = [rnd_frac(rng, -4, 4, 2) for j in range(rng.randint(1, 4))]
+        if i % 4 == 1:
+            hv = [Fraction(0)] * rng.randint(1, 2) + hv
+        if i % 4 == 2:
+            hv = hv + [Fraction(0)]
+        if i % 4 == 3:
+            xv = [Fraction(0)] + xv + [Fraction(0)]
+        conv_case(xv, rng.randint(-2, 2), hv, rng.randint(-2, 2))
+    for i in (range(60 if quick else 600) if gen else []):
+        b = [rnd_frac(rng, -3, 3, 2) for _ in range(rng.randint(1, 3))]
+        a = [rnd_frac(rng, -3, 3, 2)] + ([rnd_frac(rng, -3, 3, 2) for _ in range(rng.randint(1, 2))] if i % 2 else [])
+        xv = [rnd_frac(rng, -4, 4, 2) for _ in range(rng.randint(1, 5))] + [Fraction(0)] * (0 if i % 3 == 0 else 3)
+        lfilter_case(b, a, xv)
+
+    # ------------------------------------------------------------------ DFT stream
+    def fterm_tokens(t, aval=None):
+        # term tokens for the F_P requests; `aval` overrides the geometric base by an F_P element
+        if aval is None:
+            return t.tokens()
+        return '%s %d %d %s' % (fstr(t.coef), t.p, aval, t.kind if t.kind == 'one' else '%s %d' % (t.kind, t.d))
+
+    def dft_case(terms, N, symbolic, bins):
+        """bins[i] = m means term i carries an extra factor exp(j 2 pi m n / N) (numeric N only)"""
+        newcase()
+        toks = ' ; '.join(fterm_tokens(t, None if bins[i] is None else (zeta(N, bins[i]) * fp_of_frac(t.a)) % FP)
+                          for i, t in enumerate(terms))
+        key = ('dft', toks, N, symbolic)
+        fam = '+'.join(sorted(set(('exp*' if bins[i] is not None else '') + t.kind + ('*n^%d' % t.p if t.p else '') +
+                                  ('*a^n' if t.a != 1 else '') for i, t in enumerate(terms))))
+        chk.count('dft.family', fam)
+        chk.count('dft.N', ('symbolic->%d' if symbolic else '%d') % N)
+        e = S.Integer(0)
+        for i, t in enumerate(terms):
+            te = Lc.term_expr(t)
+            if bins[i] is not None:
+                te = te * S.exp(S.I * 2 * S.pi * bins[i] * Lc.n / N)
+            e = e + te
+        try:
+            xe = Lc.lcapy.nexpr(e)
+            X = xe.DFT() if symbolic else xe.DFT(N=N)
+            Xs = X.sympy
+        except Exception as ex:   # noqa
+            chk.count('dft.lcapy-error', type(ex).__name__)
+            chk.case(key, False)
+            return
+        if Xs.has(S.Sum):
+            chk.count('degenerate', 'dft-no-closed-form')
+            chk.case(key, False)
+            return
+        Nsyms = [s_ for s_ in Xs.free_symbols if s_.name == 'N']
+        chk.case(key, True)
+        chk.sample({'stream': 'dft', 'terms': toks, 'N': N, 'symbolic_N': symbolic, 'lcapy': str(Xs)[:200]})
+        w = zeta(N, -1)                               # exp(-2 pi i / N)
+        root_geo = any(bins[i] is None and t.a != 1 and pow(fp_of_frac(t.a), N, FP) == 1 for i, t in enumerate(terms))
+        wrapped = (not symbolic) and any(t.kind == 'imp' and 2 * t.d > N and 0 <= t.d < N and (t.p > 0 or t.a != 1 or bins[i] is not None)
+                                         for i, t in enumerate(terms))
+        modelled = all(b is None for b in bins)
+        Xvals = []
+        for k in range(N):
+            env = {Lc.k: S.Integer(k)}
+            for s_ in Nsyms:
+                env[s_] = S.Integer(N)
+            q = pow(w, k, FP)
+            fe = FpEval(Lc, env)
+            try:
+                lv = fe.ev(Xs)
+            except ZeroDivisionError:
+                lv = 'pole'
+            except Unsupported as ex:
+                chk.count('degenerate', 'dft-unevaluable:' + str(ex)[:30])
+                return
+            if fe.zero_times_singular:
+                chk.count('dft.delta-convention', 'needed')
+            Xvals.append(lv)
+            sv = int(drv.ask1('dft.spec %d %d | %s' % (N, q, toks)))
+            if modelled:
+                mv = drv.ask1('dft.model %s %d %d | %s' % ('sym' if symbolic else 'num', N, q, toks))
+                if mv == 'unmodelled' or lv == 'pole':
+                    chk.count('dft.model', 'unmodelled-or-pole')
+                else:
+                    chk.coverage['correspondence']['compared'] += 1
+                    if int(mv) != lv:
+                        disagree('dft', {'terms': toks, 'N': N, 'k': k, 'symbolic_N': symbolic, 'lcapy_mod_P': lv, 'model_mod_P': int(mv)})
+            if lv != sv:
+                cex({'kind': 'dft', 'geo_base_is_root_of_unity': root_geo, 'impulse_index_wrapped': wrapped},
+                    {'input': {'expr': str(e), 'terms': toks, 'N': N, 'symbolic_N': symbolic, 'k': k}, 'lcapy': str(Xs),
+                     'lcapy_value_mod_P': lv, 'spec_value_mod_P': sv, 'P': FP,
+                     'spec': 'X[k] = sum_{n<N} x[n] exp(-2 pi i n k / N), compared in F_P under exp(-2 pi i/N) -> %d' % w},
+                    'DFT closed form differs from the defining sum')
+                return
+        # IDFT(DFT(x))[n] = x[n]
+        if not symbolic and rng.random() < 0.5:
+            try:
+                xr = X.IDFT(N=N).sympy
+                got = []
+                for i in range(N):
+                    got.append(FpEval(Lc, {Lc.n: S.Integer(i)}).ev(xr))
+            except Exception as ex:   # noqa
+                chk.count('degenerate', 'idft-unevaluable:' + type(ex).__name__)
+                return
+            chk.count('dft.idft-roundtrip', 'done')
+            want = [int(v) for v in drv.ask1('sig.valsfp 0 %d | %s' % (N - 1, toks)).split(',')]
+            if got != want:
+                cex({'kind': 'idft-dft', 'geo_base_is_root_of_unity': root_geo, 'impulse_index_wrapped': wrapped,
+                     'ramp_step_delay_ge2': any(t.kind == 'step' and t.p >= 1 and t.a == 1 and t.d >= 2 for t in terms)},
+                    {'input': {'expr': str(e), 'terms': toks, 'N': N}, 'lcapy': {'dft': str(Xs), 'idft': str(xr)},
+                     'lcapy_values_mod_P': got, 'spec_values_mod_P': want, 'spec': 'IDFT(DFT(x))[n] = x[n], n < N'},
+                    'IDFT of the DFT does not recover the sequence')
+
+    ndft = 160 if quick else 1500
+    for i in (range(ndft) if gen else []):
+        mode = i % 8
+        symbolic = mode in (5, 6)
+        nt = rng.choice([1, 1, 2])
+        terms, bins = [], []
+        for j in range(nt):
+            t = gen_term(rng, j, allow_adv=False, allow_trig=False)
+            t.p = min(t.p, 1) if mode != 7 else t.p
+            terms.append(t)
+            bins.append(None)
+        N = rng.randint(1, 12) if not symbolic else rng.randint(8, 12)
+        if mode == 4 and N > 1:        # complex exponential / sinusoid at a bin frequency (oracle only)
+            m = rng.randint(1, N - 1)
+            t = Term(rnd_frac(rng), 0, Fraction(1), 'one')
+            if rng.random() < 0.5:
+                terms, bins = [t], [m]
+            else:
+                half = Term(t.coef / 2, 0, Fraction(1), 'one')
+                terms, bins = [half, Term(t.coef / 2, 0, Fraction(1), 'one')], [m, N - m]
+        if mode == 3:                  # geometric base on the unit circle (a = -1)
+            terms[0].a = Fraction(-1)
+        dft_case(terms, N, symbolic, bins)
+
+    # ------------------------------------------------------------------ replay of one recorded case
+    if replay is not None:
+        import json
+        rp = json.load(open(replay if os.path.exists(replay) else os.path.join(common.VERIF, replay)))
+        kind, inp = (rp.get('key') or {}).get('kind'), rp.get('input') or {}
+        if kind in ('zt', 'izt-zt'):
+            zt_case(parse_sig(inp['terms']), 'replay')
+        elif kind in ('izt', 'dlti_filter', 'difference_equation'):
+            izt_case(flist(inp['b']), flist(inp['a']), [])
+        elif kind == 'response':
+            xt = inp['x'].split()
+            xs = ('lit', int(xt[1]), flist(xt[2])) if xt[0] == 'lit' else ('sig', parse_sig(inp['x'][4:]))
+            resp_case(flist(inp['b']), flist(inp['a']), flist(inp['ic']), xs, inp['ni'][1])
+        elif kind == 'initial_response':
+            ini_case(flist(inp['b']), flist(inp['a']), flist(inp['ic']), flist(inp['xic']))
+        elif kind == 'convolve':
+            conv_case(flist(inp['x']), inp['x0'], flist(inp['h']), inp['h0'])
+        elif kind == 'lfilter':
+            lfilter_case(flist(inp['b']), flist(inp['a']), flist(inp['x']))
+        elif kind in ('dft', 'idft-dft') and 'exp*' not in inp.get('terms', '') and all(len(t.split()) < 9 for t in inp['terms'].split(';')):
+            ts = parse_sig(inp['terms'])
+            dft_case(ts, inp['N'], bool(inp.get('symbolic_N')), [None] * len(ts))
+        else:
+            raise common.Infra('cannot replay this record (kind %s)' % kind)
 
     # ------------------------------------------------------------------ classification
     # a disagreement is explained only by a counterexample found on the very same case
